@@ -31,6 +31,7 @@ THEOREMS = [
     "RedunModel.C07.forkKey_reentry_invariant",
     "RedunModel.C07.forkKey_linear_independent",
     "RedunModel.C07.forkKey_prekeyed",
+    "RedunModel.C07.driver_replay_is_enterAll",
     "RedunModel.C07.refuted_handles_order",
     "RedunModel.C07.refuted_handles_reentry",
     "RedunModel.C07.refuted_fork_thread",
@@ -605,7 +606,7 @@ def check_hflow(ctx, env, hf, label, thorough, recount, witness=None):
                          what="use(h, slow(10)) / use(h, slow(11)) get the handle forks 1/2 or 2/1 depending on which slow() finishes first")
         return runs
     return explore(ctx, env, label, "handles", hf.to_json(), lambda: mod.main(), task_ids, handle_ids, model_for, cfgs,
-                   cap=(40 if thorough else 6), nrandom=(10 if thorough else 2), classify=classify)
+                   cap=(16 if thorough else 6), nrandom=(4 if thorough else 2), classify=classify)
 
 
 # ------------------------------------------------------------------------------------------- fork_thread workflows
@@ -690,7 +691,7 @@ def run(ctx):
     ctl_sched.quiet()
     env = Env()
     thorough = ctx.tier == "thorough"
-    budget = 60 if ctx.tier == "quick" else 520
+    budget = 42 if ctx.tier == "quick" else 480
     try:
         recount, hf_re = probe_recount(ctx, env)
         ctx.note("tree variant: recount on limits re-entry = %s" % recount)
@@ -705,9 +706,9 @@ def run(ctx):
         k = 0
         while ctx.elapsed() < budget and k < ctx.n(400, 4000):
             r = rng.random()
-            if r < 0.55:
+            if r < 0.68:
                 check_flow(ctx, env, gen_flow(rng, serial=rng.random() < 0.3), "flow%d" % k, thorough)
-            elif r < 0.85:
+            elif r < 0.88:
                 check_hflow(ctx, env, gen_hflow(rng), "hflow%d" % k, thorough, recount)
             else:
                 fl = gen_flow(rng)
